@@ -1,6 +1,7 @@
 import Litep2pVerif.Proofs.Kad.FindNodeRun
 import Litep2pVerif.Proofs.Kad.Engine
 import Litep2pVerif.Proofs.Kad.Values
+import Litep2pVerif.Proofs.Kad.LookupRun
 import Litep2pVerif.Generated.Consts
 /-!
 # C15 — Iterative Kademlia lookups terminate with the closest responsive peers
@@ -11,7 +12,10 @@ peer lists (also from peers that were never asked, also naming the local peer, w
 failures. Setting of the `FindNodeContext` theorems (`find`, `put record`, `add provider` lookups):
 `d` is the distance of a peer to the target (the peer lists carry it: `kp.dist = d kp.peer`), `U`
 a finite universe containing every peer that is ever named, the initial candidates do not contain
-the local peer, clock readings never go back.
+the local peer. Only the theorems that speak about time-outs (`terminates`, `parallelism_bound`) or
+use the response window (`success_*`) assume that clock readings never go back (`monotoneFrom 0 evs`);
+`no_self`, `no_requery` and their value / provider / engine versions hold for arbitrary clock
+readings. `InjOn d U`: distinct peers have distinct distances to the target (SHA-256 keys differ).
 -/
 namespace Litep2pVerif.Props.C15
 open Litep2pVerif Litep2pVerif.Kad.Query
@@ -20,26 +24,33 @@ open Litep2pVerif Litep2pVerif.Kad.Query
 structure Inputs (d : Nat → Nat) (U : List Nat) (l : Nat) (inPeers : List KPeer) (evs : List Ev) : Prop where
   candsOk : ∀ kp ∈ inPeers, kp.dist = d kp.peer ∧ kp.peer ∈ U ∧ kp.peer ≠ l
   evsOk : ∀ e ∈ evs, e.ok d U
-  clock : monotoneFrom 0 evs
 
-/-- **No self.** The local peer is never sent a request. -/
+/-- **No self.** The local peer is never sent a request — for every event list and arbitrary clock
+readings. -/
 theorem no_self (d : Nat → Nat) (U : List Nat) (l r a q T : Nat) (inPeers : List KPeer) (evs : List Ev)
     (h : Inputs d U l inPeers evs) :
     l ∉ sentPeers ((FindNode.new l r a q T inPeers).run evs).2 := by
-  obtain ⟨_, _, _, _, _, _, _, h7, _⟩ := (FInv.init l r a q T inPeers h.candsOk).run evs h.evsOk h.clock
-  exact fun hm => (h7 l hm).1 rfl
+  rw [FindNode.run_eq]
+  exact (lookup_run (FindNode.sim d U) (FindNode.new l r a q T inPeers) l inPeers rfl h.candsOk evs h.evsOk).2.1
 
-/-- **No re-query.** Every peer is sent at most one request by a lookup. -/
+/-- **No re-query.** Every peer is sent at most one request by a lookup — for every event list and
+arbitrary clock readings. -/
 theorem no_requery (d : Nat → Nat) (U : List Nat) (l r a q T : Nat) (inPeers : List KPeer) (evs : List Ev)
     (h : Inputs d U l inPeers evs) :
     (sentPeers ((FindNode.new l r a q T inPeers).run evs).2).Nodup := by
-  obtain ⟨_, _, _, _, _, _, h6, _⟩ := (FInv.init l r a q T inPeers h.candsOk).run evs h.evsOk h.clock
-  exact h6
+  rw [FindNode.run_eq]
+  exact (lookup_run (FindNode.sim d U) (FindNode.new l r a q T inPeers) l inPeers rfl h.candsOk evs h.evsOk).1
 
 /-- A lying network: peer 2 answers with the local peer 0, itself, a duplicate and peer 1 that is in
 flight; only the new peer 3 is contacted afterwards. -/
 example : sentPeers ((FindNode.new 0 20 3 7 10 [⟨1, 5⟩, ⟨2, 3⟩]).run
     [.next 0, .next 0, .resp 2 [⟨0, 9⟩, ⟨2, 3⟩, ⟨3, 1⟩, ⟨3, 1⟩, ⟨1, 5⟩], .next 0, .next 0]).2 = [2, 1, 3] := by
+  decide
+
+/-- The clock jumps back and forth (request 2 goes stale at 50 and is fresh again at 3): still no peer
+is asked twice. -/
+example : sentPeers ((FindNode.new 0 20 1 7 10 [⟨1, 5⟩, ⟨2, 3⟩, ⟨3, 4⟩]).run
+    [.next 9, .next 50, .next 3, .next 60, .fail 2, .next 0, .next 100]).2 = [2, 3, 1] := by
   decide
 
 /-- **Termination.** With parallelism at least 1, over a universe of `|U|` peers a lookup makes at
@@ -49,11 +60,11 @@ return `None`: it sends a request (productive) or emits the terminal action. So 
 eventually answered or failed, the terminal action comes after at most `2|U| + 1` productive
 steps. -/
 theorem terminates (d : Nat → Nat) (U : List Nat) (l r a q T : Nat) (inPeers : List KPeer) (evs : List Ev)
-    (h : Inputs d U l inPeers evs) (ha : 1 ≤ a) :
+    (h : Inputs d U l inPeers evs) (hclk : monotoneFrom 0 evs) (ha : 1 ≤ a) :
     (FindNode.new l r a q T inPeers).productiveCount evs ≤ 2 * U.length ∧
     ∀ now, lastNow 0 evs ≤ now → ((FindNode.new l r a q T inPeers).run evs).1.pending = [] →
       ((((FindNode.new l r a q T inPeers).run evs).1).nextAction now).2 ≠ none := by
-  obtain ⟨A', h1, _, h3, _, h5, _⟩ := (FInv.init l r a q T inPeers h.candsOk).run evs h.evsOk h.clock
+  obtain ⟨A', h1, _, h3, _, h5, _⟩ := (FInv.init l r a q T inPeers h.candsOk).run evs h.evsOk hclk
   refine ⟨?_, ?_⟩
   · have : (FindNode.new l r a q T inPeers).mu U ≤ 2 * U.length := measure_le _ _ _ rfl
     omega
@@ -107,9 +118,10 @@ number of unanswered requests that are not older than the peer timeout is at mos
 factor. (Before the fix `pending_responses` was decremented again on every `next_action` call for
 every stale request; see `known_findings.d/C15.json`.) -/
 theorem parallelism_bound (d : Nat → Nat) (U : List Nat) (l r a q T : Nat) (inPeers : List KPeer)
-    (evs : List Ev) (h : Inputs d U l inPeers evs) (now : Nat) (hnow : lastNow 0 evs ≤ now) :
+    (evs : List Ev) (h : Inputs d U l inPeers evs) (hclk : monotoneFrom 0 evs) (now : Nat)
+    (hnow : lastNow 0 evs ≤ now) :
     (((FindNode.new l r a q T inPeers).run evs).1.fresh now).length ≤ a := by
-  obtain ⟨A', h1, _, h3, _⟩ := (FInv.init l r a q T inPeers h.candsOk).run evs h.evsOk h.clock
+  obtain ⟨A', h1, _, h3, _⟩ := (FInv.init l r a q T inPeers h.candsOk).run evs h.evsOk hclk
   have := h1.c.fresh_le now hnow
   rw [h3.2.2.1] at this
   exact this
@@ -126,11 +138,12 @@ example :
 (`responses`, as `on_query_succeeded` reads them) are strictly sorted by distance and at most the
 replication factor many. -/
 theorem success_sorted_bounded (d : Nat → Nat) (U : List Nat) (l r a q T : Nat) (inPeers : List KPeer)
-    (evs : List Ev) (h : Inputs d U l inPeers evs) (now : Nat) (hnow : lastNow 0 evs ≤ now) (q' : Nat)
+    (evs : List Ev) (h : Inputs d U l inPeers evs) (hclk : monotoneFrom 0 evs) (now : Nat)
+    (hnow : lastNow 0 evs ≤ now) (q' : Nat)
     (_hs : ((((FindNode.new l r a q T inPeers).run evs).1).nextAction now).2 = some (.succeeded q')) :
     let reported := dvalues ((((FindNode.new l r a q T inPeers).run evs).1).nextAction now).1.responses
     reported.Pairwise (fun x y => x.dist < y.dist) ∧ reported.length ≤ r := by
-  obtain ⟨A', h1, _, h3, _⟩ := (FInv.init l r a q T inPeers h.candsOk).run evs h.evsOk h.clock
+  obtain ⟨A', h1, _, h3, _⟩ := (FInv.init l r a q T inPeers h.candsOk).run evs h.evsOk hclk
   obtain ⟨n1, n2, _, _⟩ := h1.next now hnow
   intro reported
   refine ⟨?_, ?_⟩
@@ -149,10 +162,11 @@ theorem success_sorted_bounded (d : Nat → Nat) (U : List Nat) (l r a q T : Nat
 
 /-- **Success: answered.** Every reported peer is a peer whose response was accepted. -/
 theorem success_answered (d : Nat → Nat) (U : List Nat) (l r a q T : Nat) (inPeers : List KPeer)
-    (evs : List Ev) (h : Inputs d U l inPeers evs) (now : Nat) (hnow : lastNow 0 evs ≤ now) :
+    (evs : List Ev) (h : Inputs d U l inPeers evs) (hclk : monotoneFrom 0 evs) (now : Nat)
+    (hnow : lastNow 0 evs ≤ now) :
     ∀ kp ∈ dvalues ((((FindNode.new l r a q T inPeers).run evs).1).nextAction now).1.responses,
       kp.peer ∈ (FindNode.new l r a q T inPeers).answered evs := by
-  obtain ⟨A', h1, h2, _⟩ := (FInv.init l r a q T inPeers h.candsOk).run evs h.evsOk h.clock
+  obtain ⟨A', h1, h2, _⟩ := (FInv.init l r a q T inPeers h.candsOk).run evs h.evsOk hclk
   obtain ⟨n1, _⟩ := h1.next now hnow
   intro kp hkp
   obtain ⟨x, hx, rfl⟩ := List.mem_map.1 hkp
@@ -160,33 +174,53 @@ theorem success_answered (d : Nat → Nat) (U : List Nat) (l r a q T : Nat) (inP
   · simp at h
   · exact h
 
-/-- **Success: nothing closer left.** When success is reported, every candidate that was learned
-but not contacted (everything the lookup knows of is in `candidates`, `pending` or `queried`; the
-latter two were contacted) is at least as far from the target as the furthest reported peer. -/
+/-- **Success: everything closer was contacted** (full statement). When `next_action` reports
+success, every peer the lookup ever learned of — the initial candidates and every peer named in an
+accepted response, except the local node — that is strictly closer to the target than the furthest
+reported peer has been contacted: it is in `pending` (asked, no answer yet) or in `queried`
+(answered or failed). Distances are injective on the universe. -/
 theorem success_closer_contacted (d : Nat → Nat) (U : List Nat) (l r a q T : Nat) (inPeers : List KPeer)
-    (evs : List Ev) (h : Inputs d U l inPeers evs) (now : Nat) (hnow : lastNow 0 evs ≤ now) (q' : Nat)
+    (evs : List Ev) (h : Inputs d U l inPeers evs) (hclk : monotoneFrom 0 evs) (hinj : InjOn d U) (now : Nat)
+    (hnow : lastNow 0 evs ≤ now) (q' : Nat)
     (hs : ((((FindNode.new l r a q T inPeers).run evs).1).nextAction now).2 = some (.succeeded q')) :
     ∀ far ∈ (dvalues ((FindNode.new l r a q T inPeers).run evs).1.responses).getLast?,
-      ∀ c ∈ dvalues ((FindNode.new l r a q T inPeers).run evs).1.candidates, far.dist ≤ c.dist := by
-  obtain ⟨A', h1, _⟩ := (FInv.init l r a q T inPeers h.candsOk).run evs h.evsOk h.clock
+      ∀ p ∈ inPeers.map (·.peer) ++ (FindNode.new l r a q T inPeers).learned evs, p ≠ l → d p < far.dist →
+        p ∈ pendPeers ((FindNode.new l r a q T inPeers).run evs).1.pending ∨
+        p ∈ ((FindNode.new l r a q T inPeers).run evs).1.queried := by
+  obtain ⟨A', h1, _⟩ := (FInv.init l r a q T inPeers h.candsOk).run evs h.evsOk hclk
   obtain ⟨_, _, _, n4⟩ := h1.next now hnow
   rw [hs] at n4
   simp only [NextSpec] at n4
-  intro far hfar c hc
-  obtain ⟨x, hx, rfl⟩ := List.mem_map.1 hc
+  obtain ⟨_, _, k3, _, _, k6⟩ :=
+    lookup_run (FindNode.sim d U) (FindNode.new l r a q T inPeers) l inPeers rfl h.candsOk evs h.evsOk
+  rw [← FindNode.run_eq, ← FindNode.learned_eq] at k6
+  rw [← FindNode.run_eq] at k3
+  intro far hfar p hp hpl hlt
   simp only [dvalues, List.getLast?_map, Option.mem_def, Option.map_eq_some_iff] at hfar
   obtain ⟨y, hy, rfl⟩ := hfar
-  have := n4.2.2.2.2.2 y hy x hx
   have hk := h1.rkey y (List.mem_of_getLast? hy)
-  rw [← hk.1]; exact this
+  exact View.knows_contacted k3 (k6 hinj p hp hpl)
+    (fun c hc => by have := n4.2.2.2.2.2 y hy c hc; rw [← hk.1]; exact this) hlt
 
-/-- Replication 1: peer 1 (distance 5) answers and names the closer peer 2 (distance 3); the lookup
-goes on, and succeeds with peer 2 only once 2 has answered and nothing closer is known. -/
+/-- Replication 1: peer 1 (distance 5) answers and names the closer peer 2 (distance 3) and the
+farther peer 3; the lookup goes on, and succeeds with peer 2 only once 2 has answered; the learned
+peers are 1, 2, 3, of which 1 and 2 were contacted and 3 (not closer than 2) is still a candidate. -/
 example :
     let s := ((FindNode.new 0 1 1 7 10 [⟨1, 5⟩]).run [.next 0, .resp 1 [⟨2, 3⟩, ⟨3, 9⟩], .next 0, .resp 2 []]).1
     (s.nextAction 0).2 = some (.succeeded 7) ∧ dvalues s.responses = [⟨2, 3⟩] ∧
-      dvalues s.candidates = [⟨3, 9⟩] ∧
+      dvalues s.candidates = [⟨3, 9⟩] ∧ s.queried = [2, 1] ∧
+      (FindNode.new 0 1 1 7 10 [⟨1, 5⟩]).learned [.next 0, .resp 1 [⟨2, 3⟩, ⟨3, 9⟩], .next 0, .resp 2 []] = [2, 3] ∧
       (FindNode.new 0 1 1 7 10 [⟨1, 5⟩]).answered [.next 0, .resp 1 [⟨2, 3⟩, ⟨3, 9⟩], .next 0, .resp 2 []] = [1, 2] := by
+  decide
+
+/-- Without injectivity the statement is false of the code: peers 2 and 3 at the same distance share
+one slot of the `BTreeMap`, peer 2 is forgotten and never contacted although it is closer than the
+reported peer 1. -/
+theorem success_closer_contacted_needs_injectivity :
+    let s0 := FindNode.new 0 1 1 7 10 [⟨1, 5⟩, ⟨2, 3⟩, ⟨3, 3⟩]
+    let evs : List Ev := [.next 0, .fail 3, .next 0, .resp 1 []]
+    ((s0.run evs).1.nextAction 0).2 = some (.succeeded 7) ∧ dvalues (s0.run evs).1.responses = [⟨1, 5⟩] ∧
+      2 ∉ pendPeers (s0.run evs).1.pending ∧ 2 ∉ (s0.run evs).1.queried := by
   decide
 
 /-- **Exactly one terminal action** (engine level, all query kinds). As long as query id `q` is not
@@ -228,6 +262,178 @@ theorem lookup_parallelism_bound (l r a q : Nat) (quorum : Quorum) (loc : Bool) 
 
 example : ((GetRecord.new 0 20 2 7 .all false [⟨1, 5⟩, ⟨2, 3⟩, ⟨3, 4⟩]).run [.next, .next, .next]).2 =
     [.send 7 2, .send 7 3] := by decide
+
+/-- The hypotheses on the inputs of a value lookup. -/
+structure ValueInputs (d : Nat → Nat) (U : List Nat) (l : Nat) (inPeers : List KPeer) (evs : List GREv) :
+    Prop where
+  candsOk : ∀ kp ∈ inPeers, kp.dist = d kp.peer ∧ kp.peer ∈ U ∧ kp.peer ≠ l
+  evsOk : ∀ e ∈ evs, e.ok d U
+
+/-- The hypotheses on the inputs of a provider lookup. -/
+structure ProviderInputs (d : Nat → Nat) (U : List Nat) (l : Nat) (inPeers : List KPeer) (evs : List GPEv) :
+    Prop where
+  candsOk : ∀ kp ∈ inPeers, kp.dist = d kp.peer ∧ kp.peer ∈ U ∧ kp.peer ≠ l
+  evsOk : ∀ e ∈ evs, e.ok d U
+
+/-- **Value lookups: no self.** -/
+theorem value_no_self (d : Nat → Nat) (U : List Nat) (l r a q : Nat) (quorum : Quorum) (loc : Bool)
+    (inPeers : List KPeer) (evs : List GREv) (h : ValueInputs d U l inPeers evs) :
+    l ∉ sentPeers ((GetRecord.new l r a q quorum loc inPeers).run evs).2 := by
+  rw [GetRecord.run_eq]
+  exact (lookup_run (GetRecord.sim d U) (GetRecord.new l r a q quorum loc inPeers) l inPeers rfl
+    h.candsOk evs h.evsOk).2.1
+
+/-- **Value lookups: no re-query.** -/
+theorem value_no_requery (d : Nat → Nat) (U : List Nat) (l r a q : Nat) (quorum : Quorum) (loc : Bool)
+    (inPeers : List KPeer) (evs : List GREv) (h : ValueInputs d U l inPeers evs) :
+    (sentPeers ((GetRecord.new l r a q quorum loc inPeers).run evs).2).Nodup := by
+  rw [GetRecord.run_eq]
+  exact (lookup_run (GetRecord.sim d U) (GetRecord.new l r a q quorum loc inPeers) l inPeers rfl
+    h.candsOk evs h.evsOk).1
+
+/-- A lying network for a value lookup: peer 2 names the local peer, itself, peer 1 (in flight) and
+the new peer 3 twice. -/
+example : sentPeers ((GetRecord.new 0 20 3 7 .all false [⟨1, 5⟩, ⟨2, 3⟩]).run
+    [.next, .next, .resp 2 none [⟨0, 9⟩, ⟨2, 3⟩, ⟨3, 1⟩, ⟨3, 1⟩, ⟨1, 5⟩], .next, .next]).2 = [2, 1, 3] := by
+  decide
+
+/-- **Value lookups terminate.** With parallelism at least 1, over a universe of `|U|` peers a value
+lookup makes at most `3|U|` productive steps (a request sent, an outstanding request answered or
+failed, a partial result handed out) in any event sequence, and whenever no request is outstanding
+the next call of `next_action` does not return `None`: it hands out a record, sends a request
+(both productive) or emits the terminal action. -/
+theorem value_terminates (d : Nat → Nat) (U : List Nat) (l r a q : Nat) (quorum : Quorum) (loc : Bool)
+    (inPeers : List KPeer) (evs : List GREv) (h : ValueInputs d U l inPeers evs) (ha : 1 ≤ a) :
+    (GetRecord.new l r a q quorum loc inPeers).productiveCount evs ≤ 3 * U.length ∧
+    (((GetRecord.new l r a q quorum loc inPeers).run evs).1.pending = [] →
+      ((GetRecord.new l r a q quorum loc inPeers).run evs).1.nextAction.2 ≠ none) := by
+  refine ⟨?_, fun hp => GetRecord.next_ne_none _ hp (by rw [GetRecord.run_par]; exact ha)⟩
+  have hfr : (GetRecord.new l r a q quorum loc inPeers).view.Fr d U := Frontier.init inPeers h.candsOk
+  have := GetRecord.run_w3 evs _ hfr h.evsOk
+  have h0 : (GetRecord.new l r a q quorum loc inPeers).view.w3 U ≤ 3 * U.length := by
+    have := List.length_filter_le (fun u => decide (u ∉ ([] : List Nat) ∧ u ∉ ([] : List Nat))) U
+    simp only [View.w3, GetRecord.view, GetRecord.new, kpPeers, List.map_nil, List.length_nil]
+    omega
+  have h1 : (GetRecord.new l r a q quorum loc inPeers).records.length = 0 := rfl
+  omega
+
+/-- Two peers, both answer with a record: 2 requests + 2 answers + 2 partial results = 6 = 3·|U|
+productive steps, then the terminal action. -/
+example : (GetRecord.new 0 20 1 7 .all false [⟨1, 5⟩]).productiveCount
+      [.next, .resp 1 (some (8, false)) [⟨2, 4⟩], .next, .next, .resp 2 (some (8, false)) [], .next, .next] = 6 ∧
+    ((GetRecord.new 0 20 1 7 .all false [⟨1, 5⟩]).run
+      [.next, .resp 1 (some (8, false)) [⟨2, 4⟩], .next, .next, .resp 2 (some (8, false)) [], .next, .next]).2 =
+      [.send 7 1, .partialRecord 7 1 8, .send 7 2, .partialRecord 7 2 8, .succeeded 7] := by
+  decide
+
+/-- **Value lookups: what the terminal action means.** A value lookup has no response window, so
+"closer than the furthest reported" has no meaning; what holds instead: when the terminal action is
+emitted, either the quorum is met, or every peer the lookup ever learned of (except the local node)
+has been contacted *and* has answered or failed (is in `queried`). A failure is only reported in the
+second case. -/
+theorem value_done_means (d : Nat → Nat) (U : List Nat) (l r a q : Nat) (quorum : Quorum) (loc : Bool)
+    (inPeers : List KPeer) (evs : List GREv) (h : ValueInputs d U l inPeers evs) (hinj : InjOn d U) (q' : Nat) :
+    let s := ((GetRecord.new l r a q quorum loc inPeers).run evs).1
+    let allDone := ∀ p ∈ inPeers.map (·.peer) ++ (GetRecord.new l r a q quorum loc inPeers).learned evs,
+      p ≠ l → p ∈ s.queried
+    (s.nextAction.2 = some (.succeeded q') → s.sufficient s.foundRecords = true ∨ allDone) ∧
+    (s.nextAction.2 = some (.failed q') → allDone) := by
+  intro s allDone
+  obtain ⟨_, _, _, _, _, k6⟩ :=
+    lookup_run (GetRecord.sim d U) (GetRecord.new l r a q quorum loc inPeers) l inPeers rfl h.candsOk evs h.evsOk
+  rw [← GetRecord.run_eq, ← GetRecord.learned_eq] at k6
+  have key : s.pending = [] ∧ s.candidates = [] → allDone := by
+    intro ⟨hp, hc⟩ p hpm hpl
+    rcases k6 hinj p hpm hpl with hk | hk | hk
+    · simp only [GetRecord.view, candPeers] at hk
+      rw [show ((GetRecord.new l r a q quorum loc inPeers).run evs).1.candidates = [] from hc] at hk
+      simp at hk
+    · simp only [GetRecord.view, kpPeers] at hk
+      rw [show ((GetRecord.new l r a q quorum loc inPeers).run evs).1.pending = [] from hp] at hk
+      simp at hk
+    · exact hk
+  refine ⟨fun hs => ?_, fun hf => key (GetRecord.failed_means s q' hf)⟩
+  rcases GetRecord.terminal_means s q' (Or.inl hs) with h1 | h1
+  · exact Or.inl h1
+  · exact Or.inr (key h1)
+
+/-- Quorum `All` with replication 20 is never met by two peers: the lookup ends when both learned
+peers have answered. -/
+example :
+    let s0 := GetRecord.new 0 20 1 7 .all false [⟨1, 5⟩]
+    let evs : List GREv := [.next, .resp 1 none [⟨2, 4⟩, ⟨0, 1⟩], .next, .fail 2]
+    (s0.run evs).1.nextAction.2 = some (.failed 7) ∧ s0.learned evs = [2, 0] ∧ (s0.run evs).1.queried = [2, 1] := by
+  decide
+
+/-- **Provider lookups: no self.** -/
+theorem provider_no_self (d : Nat → Nat) (U : List Nat) (l a q : Nat) (known : List Prov)
+    (inPeers : List KPeer) (evs : List GPEv) (h : ProviderInputs d U l inPeers evs) :
+    l ∉ sentPeers ((GetProviders.new l a q known inPeers).run evs).2 := by
+  rw [GetProviders.run_eq]
+  exact (lookup_run (GetProviders.sim d U) (GetProviders.new l a q known inPeers) l inPeers rfl
+    h.candsOk evs h.evsOk).2.1
+
+/-- **Provider lookups: no re-query.** -/
+theorem provider_no_requery (d : Nat → Nat) (U : List Nat) (l a q : Nat) (known : List Prov)
+    (inPeers : List KPeer) (evs : List GPEv) (h : ProviderInputs d U l inPeers evs) :
+    (sentPeers ((GetProviders.new l a q known inPeers).run evs).2).Nodup := by
+  rw [GetProviders.run_eq]
+  exact (lookup_run (GetProviders.sim d U) (GetProviders.new l a q known inPeers) l inPeers rfl
+    h.candsOk evs h.evsOk).1
+
+example : sentPeers ((GetProviders.new 0 3 7 [] [⟨1, 5⟩, ⟨2, 3⟩]).run
+    [.next, .next, .resp 2 [] [⟨0, 9⟩, ⟨2, 3⟩, ⟨3, 1⟩, ⟨3, 1⟩, ⟨1, 5⟩], .next, .next]).2 = [2, 1, 3] := by
+  decide
+
+/-- **Provider lookups terminate.** With parallelism at least 1 a provider lookup makes at most
+`2|U|` productive steps (a request sent, or an outstanding request answered or failed), and whenever
+no request is outstanding the next call of `next_action` sends a request or emits the terminal
+action. -/
+theorem provider_terminates (d : Nat → Nat) (U : List Nat) (l a q : Nat) (known : List Prov)
+    (inPeers : List KPeer) (evs : List GPEv) (h : ProviderInputs d U l inPeers evs) (ha : 1 ≤ a) :
+    (GetProviders.new l a q known inPeers).productiveCount evs ≤ 2 * U.length ∧
+    (((GetProviders.new l a q known inPeers).run evs).1.pending = [] →
+      ((GetProviders.new l a q known inPeers).run evs).1.nextAction.2 ≠ none) := by
+  refine ⟨?_, fun hp => GetProviders.next_ne_none _ hp (by rw [GetProviders.run_par]; exact ha)⟩
+  obtain ⟨_, _, _, _, k5, _⟩ :=
+    lookup_run (GetProviders.sim d U) (GetProviders.new l a q known inPeers) l inPeers rfl h.candsOk evs h.evsOk
+  rw [← GetProviders.productiveCount_eq] at k5
+  omega
+
+example : (GetProviders.new 0 1 7 [] [⟨1, 5⟩]).productiveCount
+      [.next, .resp 1 [⟨4, 9, [1]⟩] [⟨2, 4⟩], .next, .fail 2, .next] = 4 ∧
+    ((GetProviders.new 0 1 7 [] [⟨1, 5⟩]).run
+      [.next, .resp 1 [⟨4, 9, [1]⟩] [⟨2, 4⟩], .next, .fail 2, .next]).2 = [.send 7 1, .send 7 2, .succeeded 7] := by
+  decide
+
+/-- **Provider lookups are exhaustive.** A provider lookup has no early exit: when it emits its
+terminal action, every peer it ever learned of (except the local node) has been contacted and has
+answered or failed — in particular every learned peer closer than any reported one. -/
+theorem provider_all_contacted (d : Nat → Nat) (U : List Nat) (l a q : Nat) (known : List Prov)
+    (inPeers : List KPeer) (evs : List GPEv) (h : ProviderInputs d U l inPeers evs) (hinj : InjOn d U) (q' : Nat)
+    (hs : ((GetProviders.new l a q known inPeers).run evs).1.nextAction.2 = some (.succeeded q') ∨
+      ((GetProviders.new l a q known inPeers).run evs).1.nextAction.2 = some (.failed q')) :
+    ∀ p ∈ inPeers.map (·.peer) ++ (GetProviders.new l a q known inPeers).learned evs, p ≠ l →
+      p ∈ ((GetProviders.new l a q known inPeers).run evs).1.queried := by
+  obtain ⟨_, _, _, _, _, k6⟩ :=
+    lookup_run (GetProviders.sim d U) (GetProviders.new l a q known inPeers) l inPeers rfl h.candsOk evs h.evsOk
+  rw [← GetProviders.run_eq, ← GetProviders.learned_eq] at k6
+  obtain ⟨hp, hc⟩ := GetProviders.terminal_means _ q' hs
+  intro p hpm hpl
+  rcases k6 hinj p hpm hpl with hk | hk | hk
+  · simp only [GetProviders.view, candPeers] at hk
+    rw [hc] at hk
+    simp at hk
+  · simp only [GetProviders.view, kpPeers] at hk
+    rw [hp] at hk
+    simp at hk
+  · exact hk
+
+example :
+    let s0 := GetProviders.new 0 1 7 [] [⟨1, 5⟩]
+    let evs : List GPEv := [.next, .resp 1 [⟨4, 9, [1]⟩] [⟨2, 4⟩], .next, .fail 2]
+    (s0.run evs).1.nextAction.2 = some (.succeeded 7) ∧ s0.learned evs = [2] ∧ (s0.run evs).1.queried = [2, 1] := by
+  decide
 
 /-- **Records once.** Along every event sequence of a value lookup the records handed out as
 partial results followed by the records still queued are exactly the unexpired records of the
@@ -299,6 +505,8 @@ open Litep2pVerif.Props.C15 in
 open Litep2pVerif.Props.C15 in
 #print axioms success_closer_contacted
 open Litep2pVerif.Props.C15 in
+#print axioms success_closer_contacted_needs_injectivity
+open Litep2pVerif.Props.C15 in
 #print axioms terminal_once
 open Litep2pVerif.Props.C15 in
 #print axioms default_parallelism_pos
@@ -312,3 +520,19 @@ open Litep2pVerif.Props.C15 in
 #print axioms local_record_double_count
 open Litep2pVerif.Props.C15 in
 #print axioms providers_once
+open Litep2pVerif.Props.C15 in
+#print axioms value_no_self
+open Litep2pVerif.Props.C15 in
+#print axioms value_no_requery
+open Litep2pVerif.Props.C15 in
+#print axioms value_terminates
+open Litep2pVerif.Props.C15 in
+#print axioms value_done_means
+open Litep2pVerif.Props.C15 in
+#print axioms provider_no_self
+open Litep2pVerif.Props.C15 in
+#print axioms provider_no_requery
+open Litep2pVerif.Props.C15 in
+#print axioms provider_terminates
+open Litep2pVerif.Props.C15 in
+#print axioms provider_all_contacted
